@@ -25,7 +25,17 @@ def solve_lemma(assumptions, goal):
     s.add(*assumptions)
     s.add(z3.Not(g))
     r = s.check()
+    LAST_LEMMA_MODEL[0] = None
+    if r == z3.sat:
+        try:
+            m = s.model()
+            LAST_LEMMA_MODEL[0] = {str(d): str(m[d]) for d in m.decls() if d.arity() == 0 and "!" not in str(d)}
+        except Exception:
+            pass
     return ("unsat" if r == z3.unsat else "sat" if r == z3.sat else "unknown"), time.time() - t0, "z3"
+
+
+LAST_LEMMA_MODEL = [None]
 
 
 def run_lemmas(ctx, prop):
@@ -40,7 +50,10 @@ def run_lemmas(ctx, prop):
             continue
         for gname, assumptions, goal, text in goals:
             r, dt, be = solve_lemma(assumptions, goal)
-            out.append({"name": f"lemma::{name}::{gname}", "kind": "lemma", "result": r, "time_s": round(dt, 4), "backend": be, "text": text})
+            rec = {"name": f"lemma::{name}::{gname}", "kind": "lemma", "result": r, "time_s": round(dt, 4), "backend": be, "text": text}
+            if r == "sat" and LAST_LEMMA_MODEL[0]:
+                rec["model"] = LAST_LEMMA_MODEL[0]
+            out.append(rec)
     return out
 
 
